@@ -1145,3 +1145,157 @@ Example ex_ambiguous_now_exports_port :
   exists f, export_server ex_ambiguous_profile (mkEp [49]%N true [] false [mkPB (Some 2012%Z) (Some 2%Z) (Some [120]%N)]) = Some f /\
             lf_ports f = [inr 2012%Z].
 Proof. eexists. split; vm_compute; reflexivity. Qed.
+
+(* ================================================================ operation histories *)
+
+Definition store_clean (s : option server_cfg) : Prop :=
+  match s with Some c => Forall no_plaintext (s_users c) | None => True end.
+Definition out_clean (o : sout) : Prop :=
+  match o with Accepted s => store_clean s | Rejected _ => True end.
+
+Section History.
+  Variable H : bytes -> bytes.
+
+  Lemma step_rejected_noop : forall s o s' c, step H s o = (s', Rejected c) -> s' = s.
+  Proof.
+    intros s o s' c. destruct o as [p| | | |cfg|names]; cbn [step].
+    - destruct (negb (N.eqb (validate_server_patch p) 0)); [intro E; inversion E; reflexivity|].
+      destruct s as [old|]; [|intro E; inversion E; reflexivity].
+      destruct (negb (N.eqb (validate_full_server (merge_server old p)) 0)); intro E; inversion E; reflexivity.
+    - intro E; inversion E; reflexivity.
+    - intro E; inversion E; reflexivity.
+    - intro E; inversion E; reflexivity.
+    - intro E; inversion E.
+    - destruct s; intro E; inversion E; reflexivity.
+  Qed.
+
+  Lemma run_outs_app : forall h1 h2 s,
+    run_outs H s (h1 ++ h2) =
+    (fst (run_outs H (fst (run_outs H s h1)) h2), snd (run_outs H s h1) ++ snd (run_outs H (fst (run_outs H s h1)) h2)).
+  Proof.
+    induction h1 as [|o t IH]; intros h2 s; cbn [app run_outs fst snd].
+    - destruct (run_outs H s h2); reflexivity.
+    - destruct (step H s o) as [s1 x]. rewrite IH.
+      destruct (run_outs H s1 t) as [sf xs]. cbn [fst snd]. reflexivity.
+  Qed.
+
+  (* a rejected operation anywhere in a history changes neither the final state nor any later output *)
+  Theorem rejected_apply_is_noop : forall h1 o h2 s,
+    is_rejected (snd (step H (fst (run_outs H s h1)) o)) = true ->
+    fst (run_outs H s (h1 ++ o :: h2)) = fst (run_outs H s (h1 ++ h2)) /\
+    exists c, snd (run_outs H s (h1 ++ o :: h2)) =
+              snd (run_outs H s h1) ++ Rejected c :: snd (run_outs H (fst (run_outs H s h1)) h2) /\
+              snd (run_outs H s (h1 ++ h2)) =
+              snd (run_outs H s h1) ++ snd (run_outs H (fst (run_outs H s h1)) h2).
+  Proof.
+    intros h1 o h2 s Hr. rewrite !run_outs_app. cbn [fst snd run_outs].
+    destruct (step H (fst (run_outs H s h1)) o) as [s1 x] eqn:E. cbn [snd] in Hr.
+    destruct x as [obs|c]; [discriminate|].
+    pose proof (step_rejected_noop _ _ _ _ E) as Hs. subst s1.
+    destruct (run_outs H (fst (run_outs H s h1)) h2) as [sf xs]. cbn [fst snd].
+    split; [reflexivity|]. exists c. split; reflexivity.
+  Qed.
+
+  (* a read returns what is stored and stores nothing; after a write that reported w, a read returns w *)
+  Theorem load_returns_stored : forall s o,
+    let s' := fst (step H s o) in
+    step H s' OpLoad = (s', match s' with Some c => Accepted (Some c) | None => Rejected 101 end) /\
+    step H s' OpGetJSON = step H s' OpLoad /\
+    (forall w, snd (step H s o) = Accepted w -> s' = w) /\
+    (match o with OpLoad | OpGetJSON => s' = s | _ => True end).
+  Proof.
+    intros s o. cbn zeta. repeat split.
+    - intros w. destruct o as [p| | | |cfg|names]; cbn [step].
+      + destruct (negb (N.eqb (validate_server_patch p) 0)); cbn [snd]; [discriminate|].
+        destruct s as [old|]; cbn [snd]; [|discriminate].
+        destruct (negb (N.eqb (validate_full_server (merge_server old p)) 0)); cbn [fst snd]; [discriminate|].
+        intro E; inversion E; reflexivity.
+      + cbn [snd]. discriminate.
+      + destruct s; cbn [fst snd]; [intro E; inversion E; reflexivity | discriminate].
+      + destruct s; cbn [fst snd]; [intro E; inversion E; reflexivity | discriminate].
+      + cbn [fst snd]. intro E; inversion E; reflexivity.
+      + destruct s; cbn [fst snd]; [intro E; inversion E; reflexivity | discriminate].
+    - destruct o; exact I || reflexivity.
+  Qed.
+
+  Lemma step_clean : forall s o, store_clean s ->
+    store_clean (fst (step H s o)) /\ out_clean (snd (step H s o)).
+  Proof.
+    intros s o Hc. destruct o as [p| | | |cfg|names]; cbn [step].
+    - destruct (negb (N.eqb (validate_server_patch p) 0)); cbn [fst snd]; [split; [exact Hc | exact I]|].
+      destruct s as [old|]; cbn [fst snd]; [|split; exact I].
+      destruct (negb (N.eqb (validate_full_server (merge_server old p)) 0)); cbn [fst snd]; [split; [exact Hc | exact I]|].
+      split; cbn [store_clean out_clean]; apply hash_users_no_plaintext.
+    - split; [exact Hc | exact I].
+    - destruct s; cbn [fst snd]; split; try exact Hc; exact I.
+    - destruct s; cbn [fst snd]; split; try exact Hc; exact I.
+    - cbn [fst snd]. split; cbn [store_clean out_clean]; apply hash_users_no_plaintext.
+    - destruct s; cbn [fst snd]; [|split; exact I].
+      split; cbn [store_clean out_clean]; apply hash_users_no_plaintext.
+  Qed.
+
+  (* over any history starting from no file (or a clean file): neither the file nor anything returned ever holds a
+     plaintext password *)
+  Theorem history_no_plaintext : forall h s, store_clean s ->
+    store_clean (fst (run_outs H s h)) /\ Forall out_clean (snd (run_outs H s h)).
+  Proof.
+    induction h as [|o t IH]; intros s Hc; cbn [run_outs].
+    - split; [exact Hc | constructor].
+    - destruct (step_clean s o Hc) as [H1 H2]. destruct (step H s o) as [s1 x]. cbn [fst snd] in *.
+      destruct (IH s1 H1) as [H3 H4]. destruct (run_outs H s1 t) as [sf xs]. cbn [fst snd] in *.
+      split; [exact H3 | constructor; assumption].
+  Qed.
+End History.
+
+(* non-vacuity: users-only patch on a stored empty configuration is rejected (no port binding) *)
+Definition ex_empty_server : server_cfg := mkServer None [] None None None None None None.
+Definition ex_users_patch : server_cfg := mkServer None [ex_user [97]%N [112; 119]%N] None None None None None None.
+Example ex_rejected_history :
+  run_outs toy_hash None [OpStore ex_empty_server; OpApply ex_users_patch; OpLoad] =
+  (Some ex_empty_server, [Accepted (Some ex_empty_server); Rejected 10; Accepted (Some ex_empty_server)]).
+Proof. vm_compute. reflexivity. Qed.
+
+(* ================================================================ validated names fit the user hint *)
+
+Lemma firstn_all_le : forall (A : Type) (l : list A) n, (length l <= n)%nat -> firstn n l = l.
+Proof. intros A l n Hl. apply firstn_all2. exact Hl. Qed.
+
+Lemma name_fits_hint : forall name prefix,
+  is_empty name = false -> Z.ltb C20_MaxUserNameLen (blen name) = false ->
+  blen prefix = NoncePrefixLenForUserHint ->
+  hint_input name prefix = Ok (name ++ prefix).
+Proof.
+  intros name prefix Hne Hlen Hp. unfold hint_input.
+  assert (Hz : Z.eqb (blen name) 0 = false).
+  { apply Z.eqb_neq. unfold blen. destruct name; [discriminate|]. simpl length. lia. }
+  rewrite Hz, Hlen. f_equal. apply firstn_all_le.
+  apply Z.ltb_ge in Hlen. unfold blen in *. rewrite app_length.
+  assert (0 <= C20_MaxUserNameLen + NoncePrefixLenForUserHint)%Z by (unfold C20_MaxUserNameLen, NoncePrefixLenForUserHint; lia).
+  lia.
+Qed.
+
+(* a validated server user / client profile has a name of 1..MaxUserNameLen BYTES (model strings are byte lists):
+   the hint computation does not panic and hashes the whole name *)
+Theorem validated_name_fits_hint : forall prefix, blen prefix = NoncePrefixLenForUserHint ->
+  (forall u, validate_user u = 0%N -> hint_input (uname u) prefix = Ok (uname u ++ prefix)) /\
+  (forall p, validate_profile p = 0%N -> hint_input (uname (puser p)) prefix = Ok (uname (puser p) ++ prefix)).
+Proof.
+  intros prefix Hp. split.
+  - intros u Hv. unfold validate_user in Hv.
+    destruct (is_empty (uname u)) eqn:E1; [discriminate|].
+    destruct (is_empty (getb (u_pw u)) && is_empty (getb (u_hpw u))); [discriminate|].
+    destruct (Z.ltb C20_MaxUserNameLen (blen (uname u))) eqn:E2; [discriminate|].
+    apply name_fits_hint; assumption.
+  - intros p Hv. unfold validate_profile in Hv.
+    destruct (is_empty (pname p)); [discriminate|].
+    destruct (is_empty (uname (puser p))) eqn:E1; [discriminate|].
+    destruct (is_empty (getb (u_pw (puser p))) && is_empty (getb (u_hpw (puser p)))); [discriminate|].
+    destruct (Z.ltb C20_MaxUserNameLen (blen (uname (puser p)))) eqn:E2; [discriminate|].
+    apply name_fits_hint; assumption.
+Qed.
+
+(* 30 three-byte characters: 30 runes, 90 bytes -- rejected by the validator, would panic in the hint *)
+Example ex_multibyte_name :
+  let n := concat (repeat [230; 151; 165]%N 30) in
+  validate_user (mkUser (Some n) (Some [120]%N) None [] []) = 23%N /\ hint_input n [] = Panic.
+Proof. vm_compute. auto. Qed.
